@@ -52,6 +52,21 @@ Theorem C13_complete :
 Proof. intros R cell conv known rgs f out. exact (two_pass_complete R cell filter_val conv all_ops known rgs f out leaf_all_sound). Qed.
 Print Assumptions C13_complete.
 
+(* when no cell the program looks at is missing (and the operators are the nine of the grammar), the
+   two-pass read is the filter of ALL rows of the dataset, in order: pruning removes nothing the row
+   predicate would select *)
+Theorem C13_exact_all_rows :
+  forall (R : Type) (cell : R -> string -> pv) (conv : string -> string -> pv -> pv * pv)
+         known (rgs : list (rowgroup R)) (f : filters) (out : list R),
+    prog_good all_ops (normalize f) ->
+    (forall rg, In rg rgs -> rg_valid R cell conv (normalize f) rg) ->
+    rows_consistent R rgs ->
+    (forall r, In r (flat_map rg_rows rgs) -> decided_row R cell (normalize f) r) ->
+    two_pass R cell filter_val conv known rgs f = Ok out ->
+    out = filter (row_keep R cell f) (flat_map rg_rows rgs).
+Proof. intros R cell conv known rgs f out. exact (two_pass_all_rows R cell filter_val conv all_ops known rgs f out leaf_all_sound). Qed.
+Print Assumptions C13_exact_all_rows.
+
 (* on a cell that holds a value the row-level test is the meaning of the condition *)
 Theorem C13_selected_rows_satisfy : forall op x c, In op ops -> is_none x = false ->
   cond_cell op x c = Ok true -> sat op x c = true.
